@@ -227,6 +227,9 @@ def ladder_step(F, fe_ty):
     except Exception as e:
         return f, False, "analysis failed: %r" % (e,)
     P2, Q2 = root.get(0), root.get(1)
+    rv = ip.deconst(ret) if ret is not None else None
+    if rv is not None and rv[0] == "st" and len(rv[1]) == 2 and re.match(r"^\(.*ProjectivePoint, .*ProjectivePoint\)$", f.get("output") or ""):
+        P2, Q2 = ip.deconst(rv[1][0]), ip.deconst(rv[1][1])          # the functional form: (2P, P+Q) is returned, the inputs are untouched
     pu, pw, qu, qw = get(F, MPP, P2, "U"), get(F, MPP, P2, "W"), get(F, MPP, Q2, "U"), get(F, MPP, Q2, "W")
     if None in (pu, pw, qu, qw):
         return f, False, "a coordinate left the domain"
